@@ -58,6 +58,11 @@ def check_event(s, ev, out):
                     f'version change or new input since its last release',
                 )
             s.flags[u.key] = False
+    if op == 'rep' and 'unit' in ev and sim.reply_dropped_by_known_finding(
+            s, ev):
+        out.fail(sim.KNOWN_DROP,
+                 f'{ev["unit"]}: reply dropped, errors={ev["errors"]}')
+        return
     if op == 'rep' and 'unit' in ev:
         u = ev['unit']
         if ev['outcome'] == 'success':
